@@ -1,4 +1,4 @@
-import AlgoVerif.Lemmas.PlayerAttestTree
+import AlgoVerif.Lemmas.PlayerAttestComm
 import AlgoVerif.Model.AgreementSvc
 /-!
 What one `Model.Player.handle` does to the player's (Round, Period, Step, Napping) and which `attest` actions it emits
@@ -90,7 +90,7 @@ theorem G_of_PAt {G : Nat → Nat → PView → Prop} {root : Root} {r p : Nat} 
 in afterwards, with Step ≤ cert -/
 def CertOnly (σ' : State) (bs : List Attest) : Prop :=
   bs = [] ∨ ∃ v, bs = [⟨σ'.pl.round, σ'.pl.period, 2, v⟩] ∧ σ'.pl.step ≤ 2 ∧
-    StagedIs σ'.root σ'.pl.round σ'.pl.period v
+    StagedIs σ'.root σ'.pl.round σ'.pl.period v ∧ commVal σ'.root σ'.pl.round σ'.pl.period = some v
 
 variable {P : Params} {good : Nat → Nat → Nat → Vote → Bool} {G : Nat → Nat → PView → Prop}
 
@@ -157,7 +157,9 @@ theorem issueNextVote_a (hs : GSpec P good G) {σ σ' : State} {d : Nat} {acts :
     (hQ : QRoot P good σ.root) (hG : GRoot G σ.root) (h : issueNextVote P σ d = .ok (σ', acts)) :
     QRoot P good σ'.root ∧ GRoot G σ'.root ∧ σ'.pl.round = σ.pl.round ∧ σ'.pl.period = σ.pl.period ∧
       σ'.pl.step = σ.pl.step ∧ σ'.pl.napping = false ∧
-      ∃ v, atts acts = [⟨σ.pl.round, σ.pl.period, σ.pl.step, v⟩] := by
+      ∃ v, atts acts = [⟨σ.pl.round, σ.pl.period, σ.pl.step, v⟩] ∧
+        (σ.pl.period + 1 < 18446744073709551616 →
+          commVal σ'.root σ.pl.round σ.pl.period = some v ∨ commVal σ'.root σ.pl.round σ.pl.period = none) := by
   unfold issueNextVote at h
   split at h
   · cases h
@@ -170,19 +172,30 @@ theorem issueNextVote_a (hs : GSpec P good G) {σ σ' : State} {d : Nat} {acts :
   obtain ⟨g2, _, _⟩ := staged_g hs q1 g1 hs2
   simp only [] at h
   split at h
-  · simp only [Except.ok.injEq, Prod.mk.injEq] at h; obtain ⟨rfl, rfl⟩ := h
+  · rename_i hpay
+    simp only [Except.ok.injEq, Prod.mk.injEq] at h; obtain ⟨rfl, rfl⟩ := h
     have hpl : σ₂.pl = σ.pl := p2.trans p1
+    have hcv := commVal_staged hs2
+    rw [hpay, if_pos rfl, ← p2] at hcv
     rw [← hpl]
-    exact ⟨q2, g2, rfl, rfl, rfl, rfl, _, by rw [atts_append, a1]; rfl⟩
-  · split at h
+    exact ⟨q2, g2, rfl, rfl, rfl, rfl, ans.proposal, by rw [atts_append, a1]; rfl, fun _ => Or.inl hcv⟩
+  · rename_i hpay
+    split at h
     · cases h
     rename_i σ₃ ns hn
     obtain ⟨q3, p3⟩ := nextStatus_spec P good q2 hn
     obtain ⟨g3, _, _⟩ := nextStatus_g hs q2 g2 hn
     simp only [Except.ok.injEq, Prod.mk.injEq] at h; obtain ⟨rfl, rfl⟩ := h
     have hpl : σ₃.pl = σ.pl := p3.trans (p2.trans p1)
+    have hcv := commVal_staged hs2
+    rw [if_neg hpay, ← p2] at hcv
+    obtain ⟨rr2, pr2, hat2, _, _⟩ := staged_out hs2
+    rw [← p2] at hat2
     rw [← hpl]
-    exact ⟨q3, g3, rfl, rfl, rfl, rfl, _, by rw [atts_append, a1]; rfl⟩
+    refine ⟨q3, g3, rfl, rfl, rfl, rfl, _, by rw [atts_append, a1]; rfl, fun hfit => Or.inr ?_⟩
+    rw [p3] at hfit ⊢
+    obtain ⟨rr3, hat3, hst3⟩ := nextStatus_comm hfit hat2 hn
+    rw [commVal_frame hat2 hat3 hst3]; exact hcv
 
 /-- `p.Step` after `issueFastVote` cast a vote of step `a` at Step `st` -/
 def fastStep (st a : Nat) : Nat := if a ≠ 253 ∧ st ≤ 2 then 3 else if a = 253 ∧ st < 2 then 2 else st
@@ -193,7 +206,9 @@ def FastOut (pl : PlayerF) (σ' : State) (bs : List Attest) : Prop :=
     σ'.pl.napping = pl.napping ∧ σ'.pl.step = fastStep pl.step a ∧
     ((a = 253 ∧ StagedIs σ'.root pl.round pl.period v) ∨
      (a = 254 ∧ v ≠ 0 ∧ CachedIs σ'.root pl.round (predPeriod pl.period) v) ∨
-     (a = 255 ∧ v = 0))
+     (a = 255 ∧ v = 0)) ∧
+    (pl.period + 1 < 18446744073709551616 →
+      commVal σ'.root pl.round pl.period = some v ∨ commVal σ'.root pl.round pl.period = none)
 
 theorem fastFinish_pl (σ : State) (acts : List Action) (a v : Nat) :
     (fastFinish σ acts a v).1.root = σ.root ∧ (fastFinish σ acts a v).1.pl.round = σ.pl.round ∧
@@ -208,12 +223,15 @@ theorem fastFinish_pl (σ : State) (acts : List Action) (a v : Nat) :
 theorem fastOut_of_finish {pl : PlayerF} {τ : State} {acts : List Action} {a v : Nat} (hpl : τ.pl = pl)
     (ha : atts acts = [])
     (hv : (a = 253 ∧ StagedIs τ.root pl.round pl.period v) ∨
-          (a = 254 ∧ v ≠ 0 ∧ CachedIs τ.root pl.round (predPeriod pl.period) v) ∨ (a = 255 ∧ v = 0)) :
+          (a = 254 ∧ v ≠ 0 ∧ CachedIs τ.root pl.round (predPeriod pl.period) v) ∨ (a = 255 ∧ v = 0))
+    (hc : pl.period + 1 < 18446744073709551616 →
+      commVal τ.root pl.round pl.period = some v ∨ commVal τ.root pl.round pl.period = none) :
     FastOut pl (fastFinish τ acts a v).1 (atts (fastFinish τ acts a v).2) := by
   obtain ⟨e0, e1, e2, e3, e4, e5⟩ := fastFinish_pl τ acts a v
   subst hpl
-  refine ⟨a, v, by rw [e5, ha]; rfl, e1, e2, e3, e4, ?_⟩
-  rw [e0]; exact hv
+  refine ⟨a, v, by rw [e5, ha]; rfl, e1, e2, e3, e4, ?_, ?_⟩
+  · rw [e0]; exact hv
+  · rw [e0]; exact hc
 
 theorem issueFastVote_a (hs : GSpec P good G) (hset : ∀ r p vw, G r p vw → vw.staging ≠ 0 → vw.set = true)
     {σ σ' : State} {acts : List Action}
@@ -249,11 +267,16 @@ theorem issueFastVote_a (hs : GSpec P good G) (hset : ∀ r p vw, G r p vw → v
   have hpl5 : σ₅.pl = σ.pl := p5.trans hpl4
   have hb : atts (acts₁ ++ [Action.broadcastVotes (e1 ++ (e2 ++ e3))]) = [] := by rw [atts_append, a1]; rfl
   rw [hpl4] at hpr5
+  have hcv5 := commVal_staged hs5
+  rw [hpl4] at hcv5
   split at h
-  · simp only [Except.ok.injEq] at h
+  · rename_i hpay
+    rw [hpay, if_pos rfl] at hcv5
+    simp only [Except.ok.injEq] at h
     split at h
-    · have := fastOut_of_finish (pl := σ.pl) (τ := σ₅) (acts := acts₁ ++ [Action.broadcastVotes (e1 ++ (e2 ++ e3))])
-        (a := sDown) (v := 0) hpl5 hb (Or.inr (Or.inr ⟨rfl, rfl⟩))
+    · rename_i hz
+      have := fastOut_of_finish (pl := σ.pl) (τ := σ₅) (acts := acts₁ ++ [Action.broadcastVotes (e1 ++ (e2 ++ e3))])
+        (a := sDown) (v := 0) hpl5 hb (Or.inr (Or.inr ⟨rfl, rfl⟩)) (fun _ => Or.inl (by rw [hcv5, hz]))
       rw [h] at this
       have e0 := (fastFinish_pl σ₅ (acts₁ ++ [Action.broadcastVotes (e1 ++ (e2 ++ e3))]) sDown 0).1
       rw [h] at e0
@@ -262,22 +285,32 @@ theorem issueFastVote_a (hs : GSpec P good G) (hset : ∀ r p vw, G r p vw → v
       have hstg : StagedIs σ₅.root σ.pl.round σ.pl.period ans.proposal :=
         stagedIs_of_PAt hpr5 (hset _ _ _ (G_of_PAt g5 hpr5) (by rw [show (pview pr5).staging = ans.proposal from hst5]; exact hne)) hst5
       have := fastOut_of_finish (pl := σ.pl) (τ := σ₅) (acts := acts₁ ++ [Action.broadcastVotes (e1 ++ (e2 ++ e3))])
-        (a := sLate) (v := ans.proposal) hpl5 hb (Or.inl ⟨rfl, hstg⟩)
+        (a := sLate) (v := ans.proposal) hpl5 hb (Or.inl ⟨rfl, hstg⟩) (fun _ => Or.inl hcv5)
       rw [h] at this
       have e0 := (fastFinish_pl σ₅ (acts₁ ++ [Action.broadcastVotes (e1 ++ (e2 ++ e3))]) sLate ans.proposal).1
       rw [h] at e0
       exact ⟨e0 ▸ q5, e0 ▸ g5, this⟩
-  · split at h
+  · rename_i hpay
+    split at h
     · cases h
     rename_i σ₆ ns hn
     obtain ⟨q6, p6⟩ := nextStatus_spec P good q5 hn
     obtain ⟨g6, ⟨pr6, hpr6, hc6⟩, _⟩ := nextStatus_g hs q5 g5 hn
     have hpl6 : σ₆.pl = σ.pl := p6.trans hpl5
     rw [hpl5] at hpr6
+    have hcv6 : σ.pl.period + 1 < 18446744073709551616 → commVal σ₆.root σ.pl.round σ.pl.period = none := by
+      intro hfit
+      obtain ⟨rr5, pr5', hat5, _, _⟩ := staged_out hs5
+      rw [hpl4, ← hpl5] at hat5
+      rw [← hpl5] at hfit
+      obtain ⟨rr6, hat6, hst6⟩ := nextStatus_comm hfit hat5 hn
+      have hfr := commVal_frame hat5 hat6 hst6
+      rw [hpl5] at hfr
+      rw [hfr, hcv5, if_neg hpay]
     split at h
     · simp only [Except.ok.injEq] at h
       have := fastOut_of_finish (pl := σ.pl) (τ := σ₆) (acts := acts₁ ++ [Action.broadcastVotes (e1 ++ (e2 ++ e3))])
-        (a := sDown) (v := 0) hpl6 hb (Or.inr (Or.inr ⟨rfl, rfl⟩))
+        (a := sDown) (v := 0) hpl6 hb (Or.inr (Or.inr ⟨rfl, rfl⟩)) (fun hf => Or.inr (hcv6 hf))
       rw [h] at this
       have e0 := (fastFinish_pl σ₆ (acts₁ ++ [Action.broadcastVotes (e1 ++ (e2 ++ e3))]) sDown 0).1
       rw [h] at e0
@@ -286,7 +319,7 @@ theorem issueFastVote_a (hs : GSpec P good G) (hset : ∀ r p vw, G r p vw → v
       split at h
       · simp only [Except.ok.injEq] at h
         have := fastOut_of_finish (pl := σ.pl) (τ := σ₆) (acts := acts₁ ++ [Action.broadcastVotes (e1 ++ (e2 ++ e3))])
-          (a := sDown) (v := 0) hpl6 hb (Or.inr (Or.inr ⟨rfl, rfl⟩))
+          (a := sDown) (v := 0) hpl6 hb (Or.inr (Or.inr ⟨rfl, rfl⟩)) (fun hf => Or.inr (hcv6 hf))
         rw [h] at this
         have e0 := (fastFinish_pl σ₆ (acts₁ ++ [Action.broadcastVotes (e1 ++ (e2 ++ e3))]) sDown 0).1
         rw [h] at e0
@@ -296,7 +329,7 @@ theorem issueFastVote_a (hs : GSpec P good G) (hset : ∀ r p vw, G r p vw → v
         have hc : CachedIs σ₆.root σ.pl.round (predPeriod σ.pl.period) ns.proposal :=
           ⟨_, viewAt_of_PAt hpr6, by simpa [pview, hc6] using hbot, by simp [pview, hc6]⟩
         have := fastOut_of_finish (pl := σ.pl) (τ := σ₆) (acts := acts₁ ++ [Action.broadcastVotes (e1 ++ (e2 ++ e3))])
-          (a := sRedo) (v := ns.proposal) hpl6 hb (Or.inr (Or.inl ⟨rfl, hprop, hc⟩))
+          (a := sRedo) (v := ns.proposal) hpl6 hb (Or.inr (Or.inl ⟨rfl, hprop, hc⟩)) (fun hf => Or.inr (hcv6 hf))
         rw [h] at this
         have e0 := (fastFinish_pl σ₆ (acts₁ ++ [Action.broadcastVotes (e1 ++ (e2 ++ e3))]) sRedo ns.proposal).1
         rw [h] at e0
@@ -342,7 +375,7 @@ theorem enterPeriod_a (hs : GSpec P good G) {σ σ' : State} {src : Thresh} {tar
     simp only [Except.ok.injEq, Prod.mk.injEq] at h; obtain ⟨rfl, rfl⟩ := h
     obtain ⟨hv, hk⟩ := hc v x rfl
     obtain ⟨pr, hpr, hset, hstg⟩ := hstage hk
-    refine ⟨q2, g2, entered_period hround2 hlt rfl rfl, Or.inr ⟨v, ?_, ?_, ?_⟩⟩
+    refine ⟨q2, g2, entered_period hround2 hlt rfl rfl, Or.inr ⟨v, ?_, ?_, ?_, ?_⟩⟩
     · rw [atts_append, hb]; rfl
     · show (1 : Nat) ≤ 2
       decide
@@ -350,6 +383,11 @@ theorem enterPeriod_a (hs : GSpec P good G) {σ σ' : State} {src : Thresh} {tar
       have htp : src.period = target := (htgt hk).symm
       have := stagedIs_of_PAt hpr hset hstg
       rw [hr, htp, ← hv] at this
+      exact this
+    · have hr : src.round = σ₂.pl.round := by rw [p2]; exact hround.symm
+      have htp : src.period = target := (htgt hk).symm
+      have := pmThreshold_comm ht
+      rw [hr, htp] at this
       exact this
   · repeat' split at h
     all_goals (simp only [Except.ok.injEq, Prod.mk.injEq] at h; obtain ⟨rfl, rfl⟩ := h
@@ -473,10 +511,13 @@ theorem handleThresh_a (hs : GSpec P good G) : ∀ fuel, KA P good G (handleThre
           simp only [Except.ok.injEq, Prod.mk.injEq] at h; obtain ⟨rfl, rfl⟩ := h
           obtain ⟨hv, hk⟩ := hc v x rfl
           obtain ⟨pr, hpr, hset, hstg⟩ := hstage hk
-          refine ⟨q1, g1, Move.of_eq p1, Or.inr ⟨v, rfl, hstep, ?_⟩⟩
-          have := stagedIs_of_PAt hpr hset hstg
-          rw [← hround, hper, ← hv, ← p1] at this
-          exact this
+          refine ⟨q1, g1, Move.of_eq p1, Or.inr ⟨v, rfl, hstep, ?_, ?_⟩⟩
+          · have := stagedIs_of_PAt hpr hset hstg
+            rw [← hround, hper, ← hv, ← p1] at this
+            exact this
+          · have := pmThreshold_comm ht
+            rw [← hround, hper, ← p1] at this
+            exact this
         · simp only [Except.ok.injEq, Prod.mk.injEq] at h; obtain ⟨rfl, rfl⟩ := h
           exact ⟨q1, g1, Move.of_eq p1, Or.inl rfl⟩
       · simp only [Except.ok.injEq, Prod.mk.injEq] at h; obtain ⟨rfl, rfl⟩ := h
@@ -605,7 +646,13 @@ theorem handlePayload_a (hs : GSpec P good G) (hset : ∀ r p vw, G r p vw → v
         have hset2 := hset _ _ _ (G_of_PAt g2 hpat2) (by
           show pr.ptracker.staging ≠ 0
           rw [hst, hvp]; exact hpv)
-        exact Or.inr ⟨v, e2, hstep, stagedIs_of_PAt hpat2 hset2 hst⟩
+        refine Or.inr ⟨v, e2, hstep, stagedIs_of_PAt hpat2 hset2 hst, ?_⟩
+        have hc1 := pmPayload_comm (hef ▸ hpm)
+        rw [← p1] at hc1
+        obtain ⟨rr1, pr1, hat1⟩ := commVal_some hc1
+        obtain ⟨rr2, hat2, hst2⟩ := freshest_comm (by rw [p1]; exact hfit) hat1 hf
+        rw [← commVal_frame hat1 hat2 hst2, ← p2] at hc1
+        exact hc1
   · rename_i hnl
     simp only [Except.ok.injEq] at h
     obtain ⟨e1, e2⟩ := payloadCont_a σ₁ ef (payloadActs σ₁.pl.round p own ef) hacts
@@ -701,6 +748,12 @@ def AttKind (pl : PlayerF) (σ' : State) (b : Attest) : Prop :=
      ((b.s = 253 ∧ StagedIs σ'.root b.r b.p b.v) ∨
       (b.s = 254 ∧ b.v ≠ 0 ∧ CachedIs σ'.root b.r (predPeriod b.p) b.v) ∨ (b.s = 255 ∧ b.v = 0)))
 
+/-- what the proposal store says about the value of a cert / next-type attest right after the `handle` that emitted it:
+a cert vote is for the committable value; a next-type vote is for the committable value, or nothing is committable -/
+def CommFact (σ' : State) (b : Attest) : Prop :=
+  (b.s = 2 → commVal σ'.root b.r b.p = some b.v) ∧
+  (3 ≤ b.s → commVal σ'.root b.r b.p = some b.v ∨ commVal σ'.root b.r b.p = none)
+
 /-- one `handle`: the Step discipline and the attest it may emit -/
 structure HStep (pl : PlayerF) (σ' : State) (bs : List Attest) : Prop where
   lex : LexLe pl σ'.pl
@@ -709,17 +762,26 @@ structure HStep (pl : PlayerF) (σ' : State) (bs : List Attest) : Prop where
   nap : σ'.pl.napping = true → SamePer pl σ'.pl ∧
     ((pl.napping = true ∧ σ'.pl.step = pl.step) ∨ (σ'.pl.step = pl.step + 1 ∧ 3 ≤ pl.step))
   att : bs = [] ∨ ∃ b, bs = [b] ∧ b.r = σ'.pl.round ∧ b.p = σ'.pl.period ∧ AttKind pl σ' b
+  comm : pl.period + 1 < 18446744073709551616 → ∀ b ∈ bs, CommFact σ' b
 
 theorem hstep_of_move {pl : PlayerF} {σ' : State} {bs : List Attest} (hm : Move pl σ'.pl) (hc : CertOnly σ' bs) :
     HStep pl σ' bs := by
   have hatt : bs = [] ∨ ∃ b, bs = [b] ∧ b.r = σ'.pl.round ∧ b.p = σ'.pl.period ∧ AttKind pl σ' b := by
-    rcases hc with hc | ⟨v, hb, hstep, hst⟩
+    rcases hc with hc | ⟨v, hb, hstep, hst, _⟩
     · exact Or.inl hc
     · exact Or.inr ⟨_, hb, rfl, rfl, Or.inr (Or.inl ⟨rfl, hstep, hst⟩)⟩
+  have hcomm : ∀ b ∈ bs, CommFact σ' b := by
+    intro b hbm
+    rcases hc with hc | ⟨v, hb, _, _, hcv⟩
+    · rw [hc] at hbm; cases hbm
+    · rw [hb] at hbm
+      simp only [List.mem_singleton] at hbm
+      subst hbm
+      exact ⟨fun _ => hcv, fun h3 => absurd (show 3 ≤ 2 from h3) (by decide)⟩
   rcases hm with ⟨e1, e2, e3, e4⟩ | ⟨hlt, hs1, hn⟩
   · exact ⟨Or.inr ⟨e1, Nat.le_of_eq e2⟩, fun hne => absurd ⟨e1, e2⟩ hne, fun _ => Nat.le_of_eq e3,
-      fun hnap => ⟨⟨e1, e2⟩, Or.inl ⟨by rw [e4]; exact hnap, e3.symm⟩⟩, hatt⟩
-  · refine ⟨?_, fun _ => ⟨hs1, hn⟩, ?_, ?_, hatt⟩
+      fun hnap => ⟨⟨e1, e2⟩, Or.inl ⟨by rw [e4]; exact hnap, e3.symm⟩⟩, hatt, fun _ => hcomm⟩
+  · refine ⟨?_, fun _ => ⟨hs1, hn⟩, ?_, ?_, hatt, fun _ => hcomm⟩
     · rcases hlt with hlt | ⟨hr, hp⟩
       · exact Or.inl hlt
       · exact Or.inr ⟨hr, Nat.le_of_lt hp⟩
@@ -814,7 +876,7 @@ theorem handle_a (hs : GSpec P good G) (hset : ∀ r p vw, G r p vw → vw.stagi
       have e2' : σ.pl.period = σ₁.pl.period := e2
       have e4' : σ.pl.napping = σ₁.pl.napping := e4
       have hs1' : σ.pl.step = 1 := hs1
-      refine ⟨g1, ⟨Or.inr ⟨e1', Nat.le_of_eq e2'⟩, fun hne => absurd ⟨e1', e2'⟩ hne, fun _ => by show σ.pl.step ≤ 2; omega, ?_, ?_⟩⟩
+      refine ⟨g1, ⟨Or.inr ⟨e1', Nat.le_of_eq e2'⟩, fun hne => absurd ⟨e1', e2'⟩ hne, fun _ => by show σ.pl.step ≤ 2; omega, ?_, ?_, ?_⟩⟩
       · intro hn
         have hn' : σ₁.pl.napping = true := hn
         have := hnap (by rw [e4']; exact hn')
@@ -822,35 +884,58 @@ theorem handle_a (hs : GSpec P good G) (hset : ∀ r p vw, G r p vw → vw.stagi
       · rcases a1 with a1 | ⟨v, a1⟩
         · exact Or.inl a1
         · exact Or.inr ⟨_, a1, e1', e2', Or.inl ⟨rfl, ⟨e1', e2'⟩, hs1', rfl⟩⟩
+      · intro _ b hb
+        rcases a1 with a1 | ⟨v, a1⟩
+        · rw [a1] at hb; cases hb
+        · rw [a1] at hb
+          simp only [List.mem_singleton] at hb
+          subst hb
+          exact ⟨fun h2 => absurd (show 1 = 2 from h2) (by decide), fun h3 => absurd (show 3 ≤ 1 from h3) (by decide)⟩
     rename_i hs1
     split at h
     · rename_i hs2
-      obtain ⟨_, g1, e1, e2, e3, e4, v, a1⟩ := issueNextVote_a hs (hq _) (hgg _) h
+      obtain ⟨_, g1, e1, e2, e3, e4, v, a1, c1⟩ := issueNextVote_a hs (hq _) (hgg _) h
       have e1' : σ'.pl.round = σ.pl.round := e1
       have e2' : σ'.pl.period = σ.pl.period := e2
       have e3' : σ'.pl.step = 3 := e3
       have hs2' : σ.pl.step = 2 := hs2
-      refine ⟨g1, ⟨Or.inr ⟨e1'.symm, Nat.le_of_eq e2'.symm⟩, fun hne => absurd ⟨e1'.symm, e2'.symm⟩ hne, fun _ => by omega, ?_, ?_⟩⟩
+      have a1' : atts acts = [⟨σ.pl.round, σ.pl.period, 3, v⟩] := a1
+      have c1' : σ.pl.period + 1 < 18446744073709551616 →
+          commVal σ'.root σ.pl.round σ.pl.period = some v ∨ commVal σ'.root σ.pl.round σ.pl.period = none := c1
+      refine ⟨g1, ⟨Or.inr ⟨e1'.symm, Nat.le_of_eq e2'.symm⟩, fun hne => absurd ⟨e1'.symm, e2'.symm⟩ hne, fun _ => by omega, ?_, ?_, ?_⟩⟩
       · intro hn; rw [e4] at hn; cases hn
-      · exact Or.inr ⟨_, a1, e1'.symm, e2'.symm, Or.inr (Or.inr (Or.inl ⟨by show (3 : Nat) ≤ 3; decide, e3'.symm,
+      · exact Or.inr ⟨_, a1', e1'.symm, e2'.symm, Or.inr (Or.inr (Or.inl ⟨by show (3 : Nat) ≤ 3; decide, e3'.symm,
           ⟨e1'.symm, e2'.symm⟩, e4, Or.inl ⟨hs2', rfl⟩⟩))⟩
+      · intro hfit b hb
+        rw [a1'] at hb
+        simp only [List.mem_singleton] at hb
+        subst hb
+        exact ⟨fun h2 => absurd (show 3 = 2 from h2) (by decide), fun _ => c1' hfit⟩
     rename_i hs2
     split at h
     · rename_i hn0
-      obtain ⟨_, g1, e1, e2, e3, e4, v, a1⟩ := issueNextVote_a hs (hq _) (hgg _) h
+      obtain ⟨_, g1, e1, e2, e3, e4, v, a1, c1⟩ := issueNextVote_a hs (hq _) (hgg _) h
       have e1' : σ'.pl.round = σ.pl.round := e1
       have e2' : σ'.pl.period = σ.pl.period := e2
       have e3' : σ'.pl.step = σ.pl.step := e3
       have hn0' : σ.pl.napping = true := hn0
       have h4 := hnap hn0'
-      refine ⟨g1, ⟨Or.inr ⟨e1'.symm, Nat.le_of_eq e2'.symm⟩, fun hne => absurd ⟨e1'.symm, e2'.symm⟩ hne, fun _ => by omega, ?_, ?_⟩⟩
+      have a1' : atts acts = [⟨σ.pl.round, σ.pl.period, σ.pl.step, v⟩] := a1
+      have c1' : σ.pl.period + 1 < 18446744073709551616 →
+          commVal σ'.root σ.pl.round σ.pl.period = some v ∨ commVal σ'.root σ.pl.round σ.pl.period = none := c1
+      refine ⟨g1, ⟨Or.inr ⟨e1'.symm, Nat.le_of_eq e2'.symm⟩, fun hne => absurd ⟨e1'.symm, e2'.symm⟩ hne, fun _ => by omega, ?_, ?_, ?_⟩⟩
       · intro hn; rw [e4] at hn; cases hn
-      · exact Or.inr ⟨_, a1, e1'.symm, e2'.symm, Or.inr (Or.inr (Or.inl ⟨by show 3 ≤ σ.pl.step; omega, e3'.symm,
+      · exact Or.inr ⟨_, a1', e1'.symm, e2'.symm, Or.inr (Or.inr (Or.inl ⟨by show 3 ≤ σ.pl.step; omega, e3'.symm,
           ⟨e1'.symm, e2'.symm⟩, e4, Or.inr ⟨hn0', rfl⟩⟩))⟩
+      · intro hfit b hb
+        rw [a1'] at hb
+        simp only [List.mem_singleton] at hb
+        subst hb
+        exact ⟨fun h2 => by have h2' : σ.pl.step = 2 := h2; omega, fun _ => c1' hfit⟩
     · simp only [Except.ok.injEq, Prod.mk.injEq] at h; obtain ⟨rfl, rfl⟩ := h
       have hs1' : σ.pl.step ≠ 1 := hs1
       have hs2' : σ.pl.step ≠ 2 := hs2
-      refine ⟨hG₀, ⟨Or.inr ⟨rfl, Nat.le_refl _⟩, fun hne => absurd ⟨rfl, rfl⟩ hne, fun _ => by show σ.pl.step ≤ σ.pl.step + 1; omega, ?_, Or.inl rfl⟩⟩
+      refine ⟨hG₀, ⟨Or.inr ⟨rfl, Nat.le_refl _⟩, fun hne => absurd ⟨rfl, rfl⟩ hne, fun _ => by show σ.pl.step ≤ σ.pl.step + 1; omega, ?_, Or.inl rfl, fun _ b hb => by cases hb⟩⟩
       intro _
       exact ⟨⟨rfl, rfl⟩, Or.inr ⟨rfl, by omega⟩⟩
   | fastTimeout entropy =>
@@ -860,17 +945,27 @@ theorem handle_a (hs : GSpec P good G) (hset : ∀ r p vw, G r p vw → vw.stagi
       exact ⟨hG₀, hstep_of_move (Or.inl ⟨rfl, rfl, rfl, rfl⟩) (Or.inl rfl)⟩
     · have hq : ∀ pl', QRoot P good (⟨pl', σ.root.upd P σ.pl 0⟩ : State).root := fun _ => hQ₀
       have hgg : ∀ pl', GRoot G (⟨pl', σ.root.upd P σ.pl 0⟩ : State).root := fun _ => hG₀
-      obtain ⟨_, g1, a, v, hb, e1, e2, e3, e4, hk⟩ := issueFastVote_a hs hset (hq _) (hgg _) h
+      obtain ⟨_, g1, a, v, hb, e1, e2, e3, e4, hk, hcm⟩ := issueFastVote_a hs hset (hq _) (hgg _) h
+      have hcm' : σ.pl.period + 1 < 18446744073709551616 →
+          commVal σ'.root σ.pl.round σ.pl.period = some v ∨ commVal σ'.root σ.pl.round σ.pl.period = none := hcm
+      have hb' : atts acts = [⟨σ.pl.round, σ.pl.period, a, v⟩] := hb
       have e1' : σ'.pl.round = σ.pl.round := e1
       have e2' : σ'.pl.period = σ.pl.period := e2
       have e3' : σ'.pl.napping = σ.pl.napping := e3
       have e4' : σ'.pl.step = fastStep σ.pl.step a := e4
       refine ⟨g1, ⟨Or.inr ⟨e1'.symm, Nat.le_of_eq e2'.symm⟩, fun hne => absurd ⟨e1'.symm, e2'.symm⟩ hne,
-        fun _ => by rw [e4']; exact fastStep_ge _ _, ?_, ?_⟩⟩
+        fun _ => by rw [e4']; exact fastStep_ge _ _, ?_, ?_, ?_⟩⟩
       · intro hn
         have hn' : σ.pl.napping = true := by rw [← e3']; exact hn
         exact ⟨⟨e1'.symm, e2'.symm⟩, Or.inl ⟨hn', by rw [e4']; exact fastStep_high a (hnap hn')⟩⟩
-      · exact Or.inr ⟨_, hb, e1'.symm, e2'.symm, Or.inr (Or.inr (Or.inr ⟨⟨e1'.symm, e2'.symm⟩, e3', e4', hk⟩))⟩
+      · exact Or.inr ⟨_, hb', e1'.symm, e2'.symm, Or.inr (Or.inr (Or.inr ⟨⟨e1'.symm, e2'.symm⟩, e3', e4', hk⟩))⟩
+      · intro hfit b hbm
+        rw [hb'] at hbm
+        simp only [List.mem_singleton] at hbm
+        subst hbm
+        refine ⟨fun h2 => ?_, fun _ => hcm' hfit⟩
+        have h2' : a = 2 := h2
+        rcases hk with ⟨k, _⟩ | ⟨k, _⟩ | ⟨k, _⟩ <;> omega
   | roundInterruption r =>
     obtain ⟨_, g1, e1, c1⟩ := enterRoundK_a hs (handleThresh_a hs _) (σ := ⟨_, _⟩) hQ₀ hG₀ heva h
     exact ⟨g1, hstep_of_move (Or.inr e1) c1⟩
